@@ -30,7 +30,8 @@
 
 static unsigned n_calls; static uint64_t call_target, call_rdi, call_rsp, call_oldslot_val; static uint32_t call_mxcsr; static uint16_t call_fcw;
 static uint64_t watch_slot;      /* context slot whose content is sampled when the callback is entered */
-static int old_runs_elsewhere;   /* the callback published the old ULT: its stack (region A) changes under us */
+static uint64_t old_region;       /* != 0: the callback published the old ULT, which may already run elsewhere: its whole stack (this region) changes under us */
+#define old_runs_elsewhere old_region
 uint64_t nondet_u64(void); uint8_t nondet_u8(void); uint32_t nondet_u32(void); uint16_t nondet_u16(void);
 static void havoc_range(uint64_t base, uint64_t lo, uint64_t hi) /* words of region `base` lying entirely in lo <= address < hi (all limits are 8-byte aligned) */
 {
@@ -48,7 +49,7 @@ static void vf_env_call(vf_cpu *c, uint64_t target)
     /* the callee uses its own frame below rsp, clobbers the caller-saved registers, keeps the rest */
     havoc_range(region_of(c->rsp), region_of(c->rsp), c->rsp);
     havoc_caller_saved(c);
-    if (old_runs_elsewhere) havoc_range(VF_STK_A, VF_STK_A, VF_STK_A + VF_STK);
+    if (old_region) havoc_range(old_region, old_region, old_region + VF_STK);
     c->rsp += 8; /* ret */
 }
 static vf_cpu cpu;
@@ -61,9 +62,6 @@ static void enter_from_c(vf_cpu *c, uint64_t stack_base, uint64_t ra)
     VF_ASSUME(c->rsp >= stack_base + 96 && c->rsp <= stack_base + VF_STK - 8 && (c->rsp & 15) == 8); /* room for the 56-byte frame plus a callee below it */
     vf_store64(c->rsp, ra);
 }
-/* a valid saved frame (what a saving routine left) at rsp_saved in region base */
-typedef struct { uint32_t mxcsr; uint16_t fcw; uint64_t r12, r13, r14, r15, rbx, rbp, ra; } frame_t;
-static void read_frame(uint64_t sp, frame_t *f) { f->mxcsr = vf_load32(sp); f->fcw = vf_load16(sp + 4); f->r12 = vf_load64(sp + 8); f->r13 = vf_load64(sp + 16); f->r14 = vf_load64(sp + 24); f->r15 = vf_load64(sp + 32); f->rbx = vf_load64(sp + 40); f->rbp = vf_load64(sp + 48); f->ra = vf_load64(sp + 56); }
 #define CTX_A (VF_CTX + 0)
 #define CTX_B (VF_CTX + 8)
 #define CTX_N (VF_CTX + 16)
@@ -93,7 +91,7 @@ static void put_frame_B(uint64_t *sp_b) { uint64_t sp = nondet_u64(); VF_ASSUME(
 
 void h_asm_roundtrip(void)
 {
-    any_mem(); any_cpu(&cpu); n_calls = 0; watch_slot = 0; old_runs_elsewhere = 0;
+    any_mem(); any_cpu(&cpu); n_calls = 0; watch_slot = 0; old_region = 0;
 #ifdef VF_SAVER
     int saver = VF_SAVER, restorer = nondet_u8() & 3;
 #else
@@ -111,7 +109,7 @@ void h_asm_roundtrip(void)
     havoc_range(VF_STK_A, VF_STK_A, saved); havoc_range(VF_STK_B, VF_STK_B, VF_STK_B + VF_STK); havoc_range(VF_STK_N, VF_STK_N, VF_STK_N + VF_STK);
     /* some ULT running on stack B switches (back) to A */
     uint64_t ra2 = nondet_u64(); enter_from_c(&cpu, VF_STK_B, ra2);
-    n_calls = 0;
+    n_calls = 0; old_region = VF_STK_B; /* the resumer is published by the callback and may run elsewhere at once */
     run_restorer(restorer, &cpu, CTX_A, CTX_B, nondet_u64());
     VF_ASSERT(cpu.pc == ra, "A continues at the return address of its switch call");
     VF_ASSERT(cpu.rsp == a0.rsp + 8, "with its stack pointer as after a return");
@@ -122,26 +120,35 @@ void h_asm_roundtrip(void)
 
 void h_asm_restore(void)
 {
-    any_mem(); any_cpu(&cpu); n_calls = 0; old_runs_elsewhere = 1;
-    int which = nondet_u8() & 3; uint64_t sp_b; put_frame_B(&sp_b); frame_t f; read_frame(sp_b, &f);
-    uint64_t arg = nondet_u64(); enter_from_c(&cpu, VF_STK_A, nondet_u64()); uint64_t rsp0 = cpu.rsp;
-    vf_store64(CTX_A, 0); watch_slot = (which == 2) ? CTX_A : 0;
+    any_mem(); any_cpu(&cpu); n_calls = 0; old_region = 0; watch_slot = 0;
+    /* ULT B gives up the processor first (through a routine that starts a fresh ULT, so that no third saved context is
+     * needed); its saved frame is whatever that routine wrote: no layout is assumed here */
+    uint64_t ra_b = nondet_u64(); enter_from_c(&cpu, VF_STK_B, ra_b); vf_cpu b0 = cpu;
+    run_saver((nondet_u8() & 1) ? 1 : 3, &cpu, CTX_N, CTX_B, nondet_u64(), any_stacktop());
+    uint64_t sp_b = vf_load64(CTX_B); VF_ASSUME(sp_b >= VF_STK_B + 48); /* room for a callback frame below B's saved frame */
+    any_cpu(&cpu); havoc_range(VF_STK_B, VF_STK_B, sp_b); havoc_range(VF_STK_N, VF_STK_N, VF_STK_N + VF_STK); havoc_range(VF_STK_A, VF_STK_A, VF_STK_A + VF_STK);
+    /* ULT A switches to B; the callback publishes A, which may at once run elsewhere and rewrite its stack */
+    int which = nondet_u8() & 3; uint64_t arg = nondet_u64(); enter_from_c(&cpu, VF_STK_A, nondet_u64()); uint64_t rsp0 = cpu.rsp;
+    vf_store64(CTX_A, 0); watch_slot = (which == 0 || which == 2) ? CTX_A : 0; old_region = VF_STK_A; n_calls = 0;
     run_restorer(which, &cpu, CTX_B, CTX_A, arg);
-    VF_ASSERT(cpu.pc == f.ra && cpu.rsp == sp_b + 64, "the new context continues at ITS return address on ITS stack");
-    VF_ASSERT(cpu.rbx == f.rbx && cpu.rbp == f.rbp && cpu.r12 == f.r12 && cpu.r13 == f.r13 && cpu.r14 == f.r14 && cpu.r15 == f.r15 && cpu.mxcsr == f.mxcsr && cpu.fcw == f.fcw,
-              "registers and FP control state come from the new context's saved frame -- not from the ULT that switched out or exited, whatever the callback and the old ULT did meanwhile");
+    VF_ASSERT(cpu.pc == ra_b && cpu.rsp == b0.rsp + 8, "the new context continues at ITS return address on ITS stack");
+    VF_ASSERT(cpu.rbx == b0.rbx && cpu.rbp == b0.rbp && cpu.r12 == b0.r12 && cpu.r13 == b0.r13 && cpu.r14 == b0.r14 && cpu.r15 == b0.r15 && cpu.mxcsr == b0.mxcsr && cpu.fcw == b0.fcw,
+              "registers and FP control state are the new context's own -- not those of the ULT that switched out or exited, whatever the callback and the old ULT did meanwhile");
     if (which >= 2) {
         VF_ASSERT(n_calls == 1 && call_target == F_CB && call_rdi == arg, "MODEL: f_cb(cb_arg) is called exactly once");
-        VF_ASSERT(call_rsp == sp_b - 8, "MODEL: the callback runs on the NEW context's stack (the old ULT may be resumed by another stream while it runs)");
-        if (which == 2) VF_ASSERT(call_oldslot_val == rsp0 - 56 && call_oldslot_val != 0, "MODEL: the old context is completely stored BEFORE the callback runs");
+        VF_ASSERT(region_of(call_rsp) == VF_STK_B && call_rsp + 8 == sp_b, "MODEL: the callback runs on the NEW context's stack, just below its saved frame (the old ULT may be resumed by another stream while it runs)");
     } else VF_ASSERT(n_calls == 0, "no callback");
-    if (which == 0 || which == 2) VF_ASSERT(vf_load64(CTX_A) == rsp0 - 56, "the old context slot holds the saved stack pointer");
+    if (which == 0 || which == 2) {
+        uint64_t saved_a = vf_load64(CTX_A);
+        VF_ASSERT(saved_a != 0 && region_of(saved_a) == VF_STK_A && saved_a < rsp0 && (saved_a & 15) == 0, "the old context slot holds the saved stack pointer (non-NULL, on the old ULT's own stack)");
+        if (which == 2) VF_ASSERT(call_oldslot_val == saved_a, "MODEL: the old context is completely stored BEFORE the callback runs");
+    }
     VF_REACH("asm restore"); VF_COVER(which == 3, "jump_with_call"); VF_COVER(which == 2, "switch_with_call"); VF_COVER(which == 1, "jump");
 }
 
 void h_asm_fresh(void)
 {
-    any_mem(); any_cpu(&cpu); n_calls = 0; old_runs_elsewhere = 1; vf_store64(CTX_A, 0); watch_slot = CTX_A;
+    any_mem(); any_cpu(&cpu); n_calls = 0; old_region = VF_STK_A; vf_store64(CTX_A, 0); watch_slot = CTX_A;
     int which = nondet_u8() & 3; uint64_t top = any_stacktop(), arg = nondet_u64();
     enter_from_c(&cpu, VF_STK_A, nondet_u64()); uint64_t rsp0 = cpu.rsp;
     if (which == 0) { cpu.rdi = CTX_N; cpu.rsi = F_THREAD; cpu.rdx = top; cpu.rcx = CTX_A; asm_init_and_switch_fcontext(&cpu); }
@@ -154,21 +161,21 @@ void h_asm_fresh(void)
     if (which >= 2) {
         VF_ASSERT(n_calls == 1 && call_target == F_CB && call_rdi == arg, "MODEL: f_cb(cb_arg) exactly once before the new ULT starts");
         VF_ASSERT(call_rsp + 8 <= top && call_rsp + 8 > top - 16, "MODEL: the callback runs on the NEW stack");
-        if (which == 2) VF_ASSERT(call_oldslot_val == rsp0 - 56, "MODEL: the old context is completely stored BEFORE the callback runs");
+        if (which == 2) VF_ASSERT(call_oldslot_val == vf_load64(CTX_A) && call_oldslot_val != 0, "MODEL: the old context is completely stored BEFORE the callback runs");
     } else VF_ASSERT(n_calls == 0, "no callback");
-    if (which == 0 || which == 2) VF_ASSERT(vf_load64(CTX_A) == rsp0 - 56, "the old context slot holds the saved stack pointer");
+    if (which == 0 || which == 2) { uint64_t sa = vf_load64(CTX_A); VF_ASSERT(sa != 0 && region_of(sa) == VF_STK_A && sa < rsp0 && (sa & 15) == 0, "the old context slot holds the saved stack pointer (non-NULL, on the old ULT's own stack, 16-byte aligned)"); }
     VF_REACH("asm fresh"); VF_COVER(which == 2 && (top & 15) == 8, "init_and_switch_with_call on an 8-byte aligned user stack"); VF_COVER(which == 3, "init_and_jump_with_call"); VF_COVER((top & 15) == 3, "odd stack top");
 }
 
 void h_asm_peek(void)
 {
-    any_mem(); any_cpu(&cpu); n_calls = 0; old_runs_elsewhere = 0; watch_slot = 0;
-    uint64_t sp_b; put_frame_B(&sp_b); frame_t f0; read_frame(sp_b, &f0);
+    any_mem(); any_cpu(&cpu); n_calls = 0; old_region = 0; watch_slot = 0;
+    uint64_t sp_b; put_frame_B(&sp_b); uint64_t before[8]; for (int i = 0; i < 8; i++) before[i] = vf_load64(sp_b + 8 * i); /* the target's saved frame, whatever its layout */
     uint64_t ra = nondet_u64(), arg = nondet_u64(); enter_from_c(&cpu, VF_STK_A, ra); vf_cpu a0 = cpu;
     cpu.rdi = arg; cpu.rsi = F_PEEK; cpu.rdx = CTX_B; asm_peek_fcontext(&cpu);
-    frame_t f1; read_frame(sp_b, &f1);
     VF_ASSERT(n_calls == 1 && call_target == F_PEEK && call_rdi == arg && call_rsp == sp_b - 8, "PEEK: f_peek(arg) once, on the target's stack just below its saved frame");
     VF_ASSERT(cpu.pc == ra && cpu.rsp == a0.rsp + 8 && cpu.r12 == a0.r12 && cpu.rbx == a0.rbx && cpu.rbp == a0.rbp && cpu.r13 == a0.r13 && cpu.r14 == a0.r14 && cpu.r15 == a0.r15, "PEEK: returns to the caller with its stack pointer and callee-saved registers restored");
-    VF_ASSERT(f1.ra == f0.ra && f1.rbx == f0.rbx && f1.rbp == f0.rbp && f1.r12 == f0.r12 && f1.r13 == f0.r13 && f1.r14 == f0.r14 && f1.r15 == f0.r15 && f1.mxcsr == f0.mxcsr && f1.fcw == f0.fcw && vf_load64(CTX_B) == sp_b, "PEEK: the target's saved context is left intact");
+    for (int i = 0; i < 8; i++) VF_ASSERT(vf_load64(sp_b + 8 * i) == before[i], "PEEK: the target's saved context is left intact");
+    VF_ASSERT(vf_load64(CTX_B) == sp_b, "PEEK: the target's context slot is left intact");
     VF_REACH("asm peek");
 }
